@@ -54,7 +54,7 @@ class Batch:
   """A set of worker processes for one leg."""
 
   def __init__(self, scratch, leg, prop, tier, pairs, workers, repo,
-               hashseed='0', tag='main'):
+               hashseed='0', tag='main', early_stop=True):
     self.leg = leg
     self.skipped = 0
     self.procs = []
@@ -66,7 +66,8 @@ class Batch:
       jobf = os.path.join(scratch, f"{leg['name']}-{tag}-{w}.job.json")
       job = {'engine': leg['engine'], 'property': prop, 'tier': tier,
              'seeds': chunk, 'opts': leg.get('opts', {}), 'out': out,
-             'timeout': leg.get('timeout', 1500), 'x64': leg.get('x64', True)}
+             'timeout': leg.get('timeout', 1500), 'x64': leg.get('x64', True),
+             'stop_on_violation': early_stop}
       if repo:
         job['repo'] = repo
       with open(jobf, 'w') as f:
@@ -183,6 +184,7 @@ def main(argv=None):
   ap.add_argument('--dump-digests', default='',
                   help='write {leg#index: digest} JSON (determinism self-test)')
   ap.add_argument('--hashseed', default='0')
+  ap.add_argument('--no-early-stop', action='store_true')
   args = ap.parse_args(argv)
   prop = args.property
   tier = args.tier if args.tier in ('quick', 'thorough') else 'quick'
@@ -239,7 +241,7 @@ def do_check(args, prop, tier, scratch, t_start):
     if args.workers:
       w = max(1, int(round(w * args.workers / plans.TOTAL_WORKERS)))
     b = Batch(scratch, leg, prop, tier, pairs, w, args.repo,
-              hashseed=args.hashseed)
+              hashseed=args.hashseed, early_stop=not args.no_early_stop)
     batches.append((leg, b, pairs))
   deadline = time.time() + max(l.get('deadline', 1700) for l in legs)
   for leg, b, pairs in batches:
